@@ -233,9 +233,31 @@ func init() {
 			}
 			return true
 		})
+		// isUsersetRewriteValid: the nil test is the first statement, and every child is validated recursively
+		nilGuardFirst := false
+		var recursive []string
+		if iv := findFunc(fT, "TypeSystem", "isUsersetRewriteValid"); iv != nil && len(iv.Body.List) > 0 {
+			if is, ok := iv.Body.List[0].(*ast.IfStmt); ok && src(fsT, is.Cond) == "rewrite.GetUserset() == nil" && len(is.Body.List) == 1 {
+				if rs, ok := is.Body.List[0].(*ast.ReturnStmt); ok && len(rs.Results) == 1 && strings.Contains(src(fsT, rs.Results[0]), "ErrInvalidUsersetRewrite") {
+					nilGuardFirst = true
+				}
+			}
+			ast.Inspect(iv.Body, func(n ast.Node) bool {
+				if ce, ok := n.(*ast.CallExpr); ok && src(fsT, ce.Fun) == "t.isUsersetRewriteValid" && len(ce.Args) == 3 {
+					recursive = append(recursive, src(fsT, ce.Args[2]))
+				}
+				return true
+			})
+		} else {
+			return Result{}, fmt.Errorf("typesystem.go: isUsersetRewriteValid not found")
+		}
 		var sb strings.Builder
 		sb.WriteString(genHeader)
 		sb.WriteString("namespace OpenFGAVerif.Gen.Panics\n\n")
+		sb.WriteString("/-- isUsersetRewriteValid starts with `if rewrite.GetUserset() == nil { return …ErrInvalidUsersetRewrite }` -/\n")
+		sb.WriteString(fmt.Sprintf("def rewriteNilGuardFirst : Bool := %v\n", nilGuardFirst))
+		sb.WriteString("/-- the sub-rewrites isUsersetRewriteValid recurses into -/\n")
+		sb.WriteString("def rewriteValidationRecursesInto : List String := " + leanStrList(recursive) + "\n\n")
 		sb.WriteString("/-- explicit panic( calls of the production code outside the anchored files, as file:function:argument -/\n")
 		sb.WriteString("def otherPanics : List String := " + leanStrList(others) + "\n\n")
 		sb.WriteString("/-- calls of EvaluableCondition.Evaluate in production code -/\n")
